@@ -996,3 +996,31 @@ Proof.
       rewrite Hc. destruct (0 <? snd e) eqn:Pz; [reflexivity | apply N.ltb_ge in Pz; lia].
     + rewrite Hfind. reflexivity.
 Qed.
+
+(* ---------- splitIndex conserves the counts between the kept and the new index ---------- *)
+Lemma num_voxels_cons' (e : key * N) (r : index) : num_voxels (e :: r) = snd e + num_voxels r.
+Proof. reflexivity. Qed.
+
+Lemma split_entry_sum bs sm e r s :
+  split_entry bs sm e = Ok (r, s) -> num_voxels r + num_voxels s = snd e.
+Proof.
+  unfold split_entry. destruct (aget N.eqb (ksv e) sm) as [[spl rem]|].
+  - destruct (aget key_eqb (kblock e, ksv e) bs) as [[spl' n]|].
+    + destruct (snd e <? n) eqn:L1; [discriminate|]. apply N.ltb_ge in L1.
+      destruct (n <? snd e) eqn:L2; intro H; apply Ok_inj in H; inversion H; subst; unfold num_voxels; simpl.
+      * apply N.ltb_lt in L2. lia.
+      * apply N.ltb_ge in L2. lia.
+    + intro H; apply Ok_inj in H; inversion H; subst. unfold num_voxels; simpl. lia.
+  - intro H; apply Ok_inj in H; inversion H; subst. unfold num_voxels; simpl. lia.
+Qed.
+
+Theorem split_index_conserves idx bs sm : forall r s,
+  split_index idx bs sm = Ok (r, s) -> num_voxels r + num_voxels s = num_voxels idx.
+Proof.
+  induction idx as [|e t IH]; intros r s H; simpl in H.
+  - apply Ok_inj in H; inversion H; subst. reflexivity.
+  - destruct (split_entry bs sm e) as [[r1 s1]| |] eqn:E1; simpl in H; try discriminate.
+    destruct (split_index t bs sm) as [[r2 s2]| |] eqn:E2; simpl in H; try discriminate.
+    apply Ok_inj in H; inversion H; subst. rewrite !num_voxels_app, num_voxels_cons'.
+    pose proof (split_entry_sum bs sm e r1 s1 E1). pose proof (IH r2 s2 eq_refl). lia.
+Qed.
